@@ -180,7 +180,7 @@ def make_ks(model, mol, uks, gcfg, mdesc):
             nrad=80,
             aparam=0.04,
             dparam=0.06,
-            alpha_max=1000.0,
+            alpha_max=3000.0,
             aux_lambd=1.9,
         )
     ks = make_cider_calc(ks, model, xmix=mdesc.get("xmix", 0.5), xkernel="GGA_X_PBE", ckernel="GGA_C_PBE", nldf_init=nldf_init)
@@ -364,6 +364,16 @@ def exec_ni_history(hist, rp):
             import traceback
 
             tb = traceback.extract_tb(ex.__traceback__)
+            ref_exc = None
+            try:
+                for j in op["dms"]:
+                    reference(mi, k, gi, uks, j)
+            except Exception as ex2:
+                ref_exc = type(ex2).__name__
+                set_perturb(hist["perturb"])
+            if ref_exc == type(ex).__name__ and isinstance(ex, RuntimeError) and "exponent is too large" in str(ex):
+                stats["rejected_by_fresh_objects_too"] += 1
+                break
             V("call-raises:%s:%s:%s" % ("nr_uks" if uks else "nr_rks", type(ex).__name__, tb[-1].name if tb else "?"), "step %d: %s" % (step, str(ex)[:200]))
             break
         after = adigest(*(arg if isinstance(arg, (list, tuple)) else [arg]), g.coords, g.weights, mol._atm, mol._bas, mol._env)
@@ -742,6 +752,23 @@ def exec_ks_history(hist, rp):
             import traceback
 
             tb = traceback.extract_tb(ex.__traceback__)
+            # a request that fresh objects reject in the same way is not a history effect
+            ref_exc = None
+            if c in ("veff", "scf"):
+                try:
+                    set_perturb(hist["perturb"] ^ 0x5A)
+                    mol_f = U.mol(cur, fresh=True)
+                    ks_f = make_ks(U.fresh_model(0), mol_f, uks, {"level": level}, mdesc)
+                    ks_f.build()
+                    do(ks_f, mol_f, op, cur)
+                except Exception as ex2:
+                    ref_exc = type(ex2).__name__
+                finally:
+                    set_perturb(hist["perturb"])
+            # (narrow: only the documented input rejection "NLDF exponent is too large")
+            if ref_exc == type(ex).__name__ and isinstance(ex, RuntimeError) and "exponent is too large" in str(ex):
+                stats["rejected_by_fresh_objects_too"] += 1
+                break
             V("call-raises:ks.%s:%s:%s" % (c, type(ex).__name__, tb[-1].name if tb else "?"), "step %d: %s" % (step, str(ex)[:200]))
             break
         if not inputs_ok:
@@ -1234,6 +1261,7 @@ def coverage(done, tier):
             "sdmx_generator_reused": tot["sdmx_generator_reused"],
             "sdmx_generator_initialised": tot["sdmx_generator_initialised"],
             "calculators_built": tot["calculators_built"],
+            "requests_rejected_by_fresh_objects_too": tot["rejected_by_fresh_objects_too"],
         },
         "distinct_transition_tuples": len(tuples),
         "distinct_transition_tuples_measure": "(spin transition, model family, same model?, same molecule?, nset) over consecutive calculator calls",
